@@ -10,6 +10,7 @@ from common import Cmat, Cx, R, cfl, fl, max_rel_err
 LEAN_MODULES = ["PyomaVerif.Props.C08", "PyomaVerif.Props.C08Pipe", "PyomaVerif.Props.C08Unity", "PyomaVerif.Props.C08Ms", "PyomaVerif.Props.C08Perm",
                 "PyomaVerif.Props.C08PermPlscf",
                 "PyomaVerif.Props.C08MixBell"]
+                "PyomaVerif.Props.C08PermPlscf", "PyomaVerif.Props.C08MixPlscf"]
 THEOREMS = [
     "PV.C08.C08_gain_hank_mm",
     "PV.C08.C08_gain_hank_R",
@@ -104,6 +105,12 @@ THEOREMS = [
     "PV.C08MixBell.C08_mix_bell_estimates",
     "PV.C08MixBell.C08_perm_is_mix",
     "PV.C08MixBell.C08_perm_bell",
+    # pLSCF under an orthogonal mixing of the channels: normal equations, certificate, two runs, rmfd2ac, poles (Props/C08MixPlscf.lean)
+    "PV.C08.C08_mix_plscf_normal",
+    "PV.C08.C08_mix_plscf_cert",
+    "PV.C08.C08_mix_plscf_order",
+    "PV.C08.C08_mix_plscf_rmfd",
+    "PV.C08.C08_mix_plscf_poles",
 ]
 RULE = (
     "metamorphic oracle on the real code: every algorithm class (FDD, EFDD, FSDD, SSIcov[cov_mm, cov_R], SSIdat, pLSCF[per, cor] and "
@@ -114,7 +121,10 @@ RULE = (
     "distinct = (class, transformation kind, method); correspondence: ssi.ac2mp at dt and dt/k against the model ac2mpSsi "
     "(the log(lam_d)*(1/dt) step inside the model, scipy's eig recorded; fn, xi, lam, phi to 1e-12) and the two model outputs "
     "related as C08_time_unit_ac2mp says; the unity normalisers of ssi.ac2mp, plscf.ac2mp_poly, fdd.FDD_mpe against "
-    "normalise / phiCell / Fdd.normalise (index picked identical incl. exact ties, values to 1e-12, NaN pattern for zero vectors)"
+    "normalise / phiCell / Fdd.normalise (index picked identical incl. exact ties, values to 1e-12, NaN pattern for zero vectors); "
+    "plscf.pLSCF itself on Sy and on R Sy Q^T (Q orthogonal: Haar, rational rotation, signed permutation; R = Q or an independent orthogonal R on "
+    "fewer reference rows; constraints LO and HI): Ad' = Q Ad Q^T, Bn' = R Bn Q^T to 1e-10 relative, orders whose coefficients move by more than "
+    "1e-12 under a rounding-level perturbation of Sy skipped; the same relation exactly in rationals between two runs of the model plscfOrder"
 )
 EXTRA_TRUSTED = [
     "that LAPACK/FFT return a valid factorisation for the transformed input too (the theorems quantify over all valid factorisations)",
@@ -560,6 +570,131 @@ def _efdd_mix_cases(ctx, scale):
         ctx.count(f"cases_mixbell_{kind}_{tr}")
         if not _cmp_modes(ctx, base["modes"], new["modes"], kf, rowmap, f"{kind}:{tr}", inp):
             return
+def _plscf_synth(g, nref, nch, nf, nm, dt):
+    """a pLSCF input: `nm` modes' half-spectrum (positive-power form) plus 2 % complex noise, first `nref` rows"""
+    fs = 1 / dt
+    s = 2j * np.pi * np.linspace(0.0, fs / 2, nf)
+    Sy = np.zeros((nch, nch, nf), complex)
+    for _ in range(nm):
+        fn = g.uniform(0.08, 0.42) * fs
+        xi = g.uniform(0.01, 0.04)
+        lam = -xi * 2 * np.pi * fn + 2j * np.pi * fn * np.sqrt(1 - xi**2)
+        phi = g.standard_normal(nch)
+        Rr = np.outer(phi, phi) * (1 + 0.2j * g.standard_normal())
+        a = Rr[:, :, None] / (s - lam) + Rr.conj()[:, :, None] / (s - lam.conjugate())
+        b = Rr[:, :, None] / (-s - lam) + Rr.conj()[:, :, None] / (-s - lam.conjugate())
+        Sy += a + np.swapaxes(b, 0, 1)
+    Sy += 0.02 * np.abs(Sy).max() * (g.standard_normal(Sy.shape) + 1j * g.standard_normal(Sy.shape))
+    return Sy[:nref]
+
+
+def _plscf_mix_cases(ctx, scale):
+    """`plscf.pLSCF` itself (the numerical core of pLSCF.run) on a spectral array `Sy` and on the mixed array
+    `R Sy[:, :, f] Q^T` (Q orthogonal on the channels, R = Q for the square array, an independent orthogonal R on the
+    reference rows for a rectangular one): for every order the returned denominator coefficients are conjugated,
+    `Ad'[k] = Q Ad[k] Q^T`, and the numerators are `Bn'[k] = R Bn[k] Q^T` (C08_mix_plscf_cert / _order), both constraints.
+    Rounding-only tolerance; conditioning is guarded by the response of the same call to a rounding-level perturbation of
+    `Sy`.  A second, exact, leg runs the MODEL (`plscf_order`) on a dyadic array and on its mixture by a rational rotation and
+    checks the same relation in rationals."""
+    from fractions import Fraction
+
+    from pyoma2.functions import plscf
+
+    rng = ctx.rng
+    g = ctx.nprng()
+    pyth = [(3, 4, 5), (5, 12, 13), (8, 15, 17), (7, 24, 25)]
+    for it in range(ctx.n(24, 160) * scale):
+        nch = rng.randint(2, 4)
+        square = it % 3 != 2
+        nref = nch if square else rng.randint(1, nch)
+        nf = rng.randint(40, 120)
+        dt = rng.choice([0.01, 0.02, 0.005])
+        ordmax = rng.randint(2, 5)
+        sgn = rng.choice([-1, 1])
+        Sy = _plscf_synth(g, nref, nch, nf, rng.randint(1, 2), dt)
+        kindq = ["haar", "rotation", "signperm"][it % 3 if nch == 2 else (0 if it % 4 else 2)]
+        if kindq == "haar":
+            Q = np.linalg.qr(g.standard_normal((nch, nch)))[0]
+        elif kindq == "rotation":
+            a, b, c = rng.choice(pyth)
+            Q = np.array([[a / c, -b / c], [b / c, a / c]])
+        else:
+            Q = np.eye(nch)[rng.sample(range(nch), nch)] * np.array([rng.choice([-1.0, 1.0]) for _ in range(nch)])
+        Rm = Q if square else np.linalg.qr(g.standard_normal((nref, nref)))[0]
+        Sy2 = np.einsum("op,pqf,cq->ocf", Rm, Sy, Q)
+        Syp = Sy * (1 + 4e-16 * g.standard_normal(Sy.shape))
+        inp = {"class": "plscf.pLSCF", "transformation": "orth", "fs": 1 / dt, "params": {"Nch": nch, "Nref": nref, "Nf": nf, "ordmax": ordmax, "sgn_basf": sgn},
+               "t": {"Q": Q.tolist(), "R": "Q" if square else Rm.tolist(), "kind": kindq}, "case": f"seed{ctx.seed}#plscfmix{it}"}
+        try:
+            Ad, Bn = plscf.pLSCF(Sy, dt, ordmax, sgn)
+            Adp, Bnp = plscf.pLSCF(Syp, dt, ordmax, sgn)
+        except Exception as e:  # noqa: BLE001
+            ctx.skipped += 1
+            ctx.count(f"base_failed_plscf.pLSCF_{type(e).__name__}")
+            continue
+        ctx.oracle_cases += 1
+        try:
+            Ad2, Bn2 = plscf.pLSCF(Sy2, dt, ordmax, sgn)
+        except Exception as e:  # noqa: BLE001
+            ctx.violation("pLSCF:orth:transformed-run-fails", f"plscf.pLSCF on the mixed spectral array raises {type(e).__name__}: {str(e)[:100]} while the original call succeeds", inp)
+            return
+        if len(Ad2) != len(Ad) or len(Bn2) != len(Bn):
+            ctx.violation("pLSCF:orth:order-count", f"plscf.pLSCF returns {len(Ad2)} orders for the mixed array and {len(Ad)} for the original one", inp, observed=len(Ad2), expected=len(Ad))
+            return
+        for k in range(len(Ad)):
+            sa, sb = np.abs(Ad[k]).max(), np.abs(Bn[k]).max()
+            pert = max(np.abs(Adp[k] - Ad[k]).max() / sa, np.abs(Bnp[k] - Bn[k]).max() / sb)
+            if not pert <= 1e-12:  # an ill-conditioned order: rounding alone moves the coefficients
+                ctx.skipped += 1
+                ctx.count("plscf_mix_cond_skipped")
+                continue
+            if Ad2[k].shape != Ad[k].shape or Bn2[k].shape != Bn[k].shape:
+                ctx.violation("pLSCF:orth:coef-shape", f"order {k + 1}: coefficient arrays of shapes {Ad2[k].shape}, {Bn2[k].shape} for the mixed array, {Ad[k].shape}, {Bn[k].shape} for the original", inp)
+                return
+            ea = np.abs(Ad2[k] - np.einsum("ab,kbc,dc->kad", Q, Ad[k], Q)).max() / sa
+            eb = np.abs(Bn2[k] - np.einsum("op,kpb,cb->koc", Rm, Bn[k], Q)).max() / sb
+            ctx.count("plscf_mix_orders")
+            ctx.nontrivial.add(("plscf.pLSCF", "orth", kindq, "square" if square else "rect", sgn))
+            if not ea <= 1e-10:
+                ctx.violation("pLSCF:orth:Ad-not-conjugated", f"plscf.pLSCF, order {k + 1}, constraint {'HI' if sgn == 1 else 'LO'}: the denominator coefficients for Q Sy Q^T differ from Q Ad Q^T by {ea:.3g} (relative; a rounding-level perturbation of Sy moves them by {pert:.3g})",
+                              inp | {"order": k + 1}, observed=ea, expected="<= 1e-10")
+                return
+            if not eb <= 1e-10:
+                ctx.violation("pLSCF:orth:Bn-not-mixed", f"plscf.pLSCF, order {k + 1}, constraint {'HI' if sgn == 1 else 'LO'}: the numerator coefficients for R Sy Q^T differ from R Bn Q^T by {eb:.3g} (relative; perturbation response {pert:.3g})",
+                              inp | {"order": k + 1}, observed=eb, expected="<= 1e-10")
+                return
+    # the exact leg: the model on a dyadic array and on its mixture by a rational rotation
+    for it in range(ctx.n(4, 24) * scale):
+        n = rng.randint(1, 2)
+        nf = rng.randint(2 * (n + 1) + 3, 2 * (n + 1) + 6)
+        sgn = rng.choice([-1, 1])
+        a, b, c = rng.choice(pyth[:2])
+        Qf = [[Fraction(a, c), Fraction(-b, c)], [Fraction(b, c), Fraction(a, c)]]
+        Om = np.round(np.exp(sgn * 1j * np.pi * np.linspace(0.0, 1.0, nf)) * 2**10) / 2**10
+        Sy = np.round((g.standard_normal((2, 2, nf)) + 1j * g.standard_normal((2, 2, nf))) * 2**6) / 2**6
+        Sf = [[[(Fraction(float(Sy[o, c_, f].real)), Fraction(float(Sy[o, c_, f].imag))) for f in range(nf)] for c_ in range(2)] for o in range(2)]
+        S2 = [[[tuple(sum(Qf[o][p] * Qf[c_][q] * Sf[p][q][f][j] for p in range(2) for q in range(2)) for j in range(2)) for f in range(nf)] for c_ in range(2)] for o in range(2)]
+        enc = lambda S: [[[[R(z[0]), R(z[1])] for z in row] for row in blk] for blk in S]  # noqa: E731
+        m1 = ctx.model("plscf_order", n=n, hi=sgn == 1, Om=[Cx(z) for z in Om], Sy=enc(Sf))
+        m2 = ctx.model("plscf_order", n=n, hi=sgn == 1, Om=[Cx(z) for z in Om], Sy=enc(S2))
+        if m1 is None or m2 is None:
+            ctx.skipped += 1
+            ctx.count("plscf_mix_model_singular")
+            continue
+        al1 = [[Fraction(v) for v in row] for row in m1["alpha"]]
+        al2 = [[Fraction(v) for v in row] for row in m2["alpha"]]
+        ok = all(
+            al2[k * 2 + x][y] == sum(Qf[x][x2] * Qf[y][y2] * al1[k * 2 + x2][y2] for x2 in range(2) for y2 in range(2))
+            for k in range(n + 1) for x in range(2) for y in range(2)
+        )
+        be1 = [[[Fraction(v) for v in row] for row in bb] for bb in m1["beta"]]
+        be2 = [[[Fraction(v) for v in row] for row in bb] for bb in m2["beta"]]
+        ok = ok and all(
+            be2[o][t][y] == sum(Qf[o][p] * Qf[y][y2] * be1[p][t][y2] for p in range(2) for y2 in range(2))
+            for o in range(2) for t in range(n + 1) for y in range(2)
+        )
+        ctx.corr("plscfOrder[orthogonal mixing, model vs model, exact]", bool(ok), {"n": n, "hi": sgn == 1, "Q": [a, b, c], "Nf": nf}, None, None, ("plscf-mix-mm", n, sgn))
+        ctx.count("plscf_mix_model_exact")
 
 
 def oracle(ctx, scale):
@@ -572,6 +707,9 @@ def oracle(ctx, scale):
     if ctx.violations:
         return
     _offset_cases(ctx, scale)
+    if ctx.violations:
+        return
+    _plscf_mix_cases(ctx, scale)
     if ctx.violations:
         return
     n = ctx.n(5, 25) * scale
